@@ -49,7 +49,8 @@ DELAYS = [
     {"k": "float", "v": 0.5},
     {"k": "fn"},
 ]
-CATCHINGS = [("default", 1), ("class", 1), ("tuple", 1), ("tuple", 2), ("set", 1), ("set", 2)]
+# "tuple_cancel": CancelledError named explicitly in the caught set - documented to be propagated anyway
+CATCHINGS = [("default", 1), ("class", 1), ("tuple", 1), ("tuple", 2), ("set", 1), ("set", 2), ("tuple_cancel", 1)]
 
 
 class CaughtA(Exception):
@@ -155,6 +156,8 @@ def run_case(case) -> Outcome:
         catching = tuple(classes_)
     elif case["catching"] == "set":
         catching = set(classes_)
+    elif case["catching"] == "tuple_cancel":
+        catching = (CaughtA, asyncio.CancelledError)
     else:
         catching = None
     del cat
